@@ -14,6 +14,10 @@ import (
 // bounded progress in logical steps, never by the clock.
 const DefaultStepBudget = 5_000_000
 
+// DefaultGlobalBudget bounds the iterations, per case, of the loops that are not attached to one solver
+// (problem simplification, certificate checking passes, MUS extraction rounds).
+const DefaultGlobalBudget = 100_000
+
 // hook configuration shared with the OnNew / OnStep callbacks. Sequential workers set it per case.
 var hookCfg struct {
 	sync.Mutex
@@ -23,8 +27,9 @@ var hookCfg struct {
 
 // InstallSeqHooks installs the hooks used by the sequential (non-concurrent) scenarios.
 func InstallSeqHooks() {
+	BeforeCase = solver.VerifResetGlobalSteps
 	solver.VerifHooks.StepBudget = DefaultStepBudget
-	solver.VerifHooks.GlobalBudget = DefaultStepBudget
+	solver.VerifHooks.GlobalBudget = DefaultGlobalBudget
 	solver.VerifHooks.OnNew = func(s *solver.Solver) {
 		if hookCfg.learnedLimit > 0 {
 			s.VerifSetLearnedLimit(hookCfg.learnedLimit)
